@@ -77,6 +77,7 @@ FW_PLANS = {
         quick=dict(
             mc=[C("core-quick", "core", 2, 2, "mixed", [])],
             gen=[C("core-quick", "full", 2, 1, "mixed"), C("ctr-quick", "ctr", 2, 2, "one"),
+                 C("ctr-quick", "ctr", 1, 3, "one"), C("sig-trio", "sig", 1, 2, "one"),
                  C("sig-quick", "sig", 2, 1, "one"), C("limit-quick", "limit", 3, 1, "one")],
             rand=dict(scenarios=400, calls=30)),
         thorough=dict(
@@ -92,7 +93,7 @@ FW_PLANS = {
         rule=RULE % "a completion that consumed the state limit (a decrement)",
         quick=dict(
             mc=[C("limit-quick", "limit", 4, 1, "one", ["Inv_C07"])],
-            gen=[C("limit-quick", "limit", 3, 1, "one")],
+            gen=[C("limit-quick", "limit", 3, 1, "one"), C("limit-quick", "limit", 1, 3, "one")],
             rand=dict(scenarios=300, calls=30)),
         thorough=dict(
             workers=14,
@@ -104,25 +105,26 @@ FW_PLANS = {
         verdicts={"C08"},
         rule=RULE % "a counter update",
         quick=dict(
-            mc=[C("ctr-quick", "ctr", 3, 2, "one", ["Inv_C08"]), C("ctr-quick", "ctr", 4, 1, "one", ["Inv_C08"])],
-            gen=[C("ctr-quick", "ctr", 2, 2, "one")],
+            mc=[C("ctr-quick", "ctr", 3, 2, "one", ["Inv_C08"]), C("ctr-quick", "ctr", 4, 1, "one", ["Inv_C08"]),
+                C("ctr-quick", "ctr", 2, 3, "one", ["Inv_C08"])],
+            gen=[C("ctr-quick", "ctr", 2, 2, "one"), C("ctr-quick", "ctr", 1, 3, "one")],
             rand=dict(scenarios=300, calls=30)),
         thorough=dict(
             workers=14,
             mc=[C("ctr-thorough", "ctr", 3, 2, "one", ["Inv_C08"]), C("ctr-thorough", "ctr", 5, 1, "one", ["Inv_C08"])],
-            gen=[C("ctr-quick", "ctr", 3, 2, "one")],
+            gen=[C("ctr-quick", "ctr", 3, 2, "one"), C("ctr-quick", "ctr", 2, 3, "one")],
             rand=dict(scenarios=3000, calls=60))),
     "C09": dict(
         verdicts={"C09"},
         rule=RULE % "a transition to the signal pseudo-state",
         quick=dict(
-            mc=[C("sig-quick", "sig", 2, 2, "one", ["Inv_C09"])],
-            gen=[C("sig-quick", "sig", 2, 1, "one")],
+            mc=[C("sig-quick", "sig", 2, 2, "one", ["Inv_C09"]), C("sig-trio", "sig", 1, 2, "one", ["Inv_C09"])],
+            gen=[C("sig-quick", "sig", 2, 1, "one"), C("sig-trio", "sig", 1, 2, "one")],
             rand=dict(scenarios=300, calls=30)),
         thorough=dict(
             workers=14,
             mc=[C("sig-thorough", "sig", 2, 2, "one", ["Inv_C09"]), C("sig-quick", "sig", 3, 1, "one", ["Inv_C09"])],
-            gen=[C("sig-quick", "sig", 2, 2, "one")],
+            gen=[C("sig-quick", "sig", 2, 2, "one"), C("sig-trio", "sig", 2, 1, "one")],
             rand=dict(scenarios=3000, calls=60))),
 }
 
